@@ -30,6 +30,7 @@ func init() {
 			ruleChunkLimits(c, r, "")
 			ruleOpMargin(c, r, "")
 			ruleRawCopy(c, r, "")
+			ruleCopyNCE(c, r, "")
 			ruleReopenState(c, r, "")
 			ruleWriter2(c, r, t, "")
 			// "a chunk sequence ends with the end chunk": the source running dry at a chunk boundary is an
